@@ -28,10 +28,13 @@ from vlib import cn, cbool, clist
 AREA = "Buffer"
 P = "Arc.Buffer.PropsC07"
 O = "Arc.Buffer.ObligationsC07"
-THEOREMS = [(P, "C07_durable_inv"), (P, "C07_at_most_once"), (P, "C07_eventually_once"), (P, "C07_no_wal_guarded"),
-            (P, "C07_no_ack_without_wal_refuted"), (P, "C07_shutdown_purge_refuted"), (P, "C07_shutdown_queue_refuted"),
-            (P, "C07_replay_duplicates_refuted"), (P, "C07_purge_before_replay_refuted"), (P, "C07_replay_then_fail_refuted"),
-            (P, "C07_shutdown_order_spec"), (P, "C07_hooks_before_components"),
+THEOREMS = [(O, "C07_deployed_purge_after_flush"),                      # PRIMARY obligation on the regenerated table
+            (O, "C07_deployed_tick"),                                    # PRIMARY obligation on the transcribed maintenance tick
+            (P, "C07_durable_inv"), (P, "C07_at_most_once"), (P, "C07_eventually_once"), (P, "C07_no_wal_guarded"),
+            (P, "C07_shutdown_purge_safe"), (P, "C07_shutdown_order_spec"), (P, "C07_hooks_before_components"),
+            (P, "C07_no_ack_without_wal_refuted"), (P, "C07_replay_duplicates_refuted"), (P, "C07_purge_before_replay_refuted"),
+            (P, "C07_replay_then_fail_refuted"), (P, "C07_reset_after_skip_refuted"), (P, "C07_replay_buffered_old_refuted"),
+            (P, "C07_shutdown_purge_refuted"), (P, "C07_shutdown_queue_refuted"),   # about the shutdown order before f1d141d / the Close before 2ed39c6
             (O, "C07_deployed_shutdown_decided"), (O, "C07_deployed_wal_close_last")]
 MODULES = [P, O]
 TIE_NAME = "C07 correspondence (ArrowBuffer + wal.Writer/Recovery + shutdown.Coordinator vs Arc.Buffer.ModelC07) / Params_Shutdown"
@@ -41,6 +44,8 @@ KF_NOWAL = "nowal-acknowledged-rows-dropped-on-queue-full-or-flush-failure"
 KF_DUP = "wal-replay-restores-rows-already-stored"
 KF_PURGE = "maintenance-purges-old-wal-before-replaying-it"
 KF_REFAIL = "replay-deletes-wal-file-before-rows-are-flushed"
+KF_RESET = "tick-resets-failure-flag-although-wal-files-were-skipped"
+KF_ASYNC = "replayed-rows-queued-for-async-flush-when-wal-file-is-deleted"
 
 T0 = 1_700_000_000_000_000
 HARNESS_DUR = dict(lb.HARNESS_FILES)
@@ -53,10 +58,6 @@ HARNESS_DUR["internal/ingest/zz_durable_verif_test.go"] = "harness/buffer/durabl
 
 TICK_SKELETON = [
     'if arrowBuffer.HasFlushFailure() {',
-    'if walWriter != nil {',
-    'deleted, purgeErr := walWriter.PurgeOlderThan(safeAge)',
-    'if purgeErr != nil {',
-    '} else if deleted > 0 {',
     'recovery := wal.NewRecovery(cfg.WAL.Directory, walLogger)',
     'if walWriter != nil {',
     'activeFile = walWriter.CurrentFile()',
@@ -65,6 +66,7 @@ TICK_SKELETON = [
     'MinFileAge: 5 * time.Second,',
     'BatchSize: cfg.WAL.RecoveryBatchSize,',
     'ColumnarCallback: columnarCallback,',
+    'FlushReplayed: arrowBuffer.FlushAll,',
     'if err != nil {',
     '} else {',
     'if stats.RecoveredFiles > 0 {',
@@ -79,8 +81,8 @@ TICK_SKELETON = [
 def check_tick_source():
     """The maintenance tick is an inline goroutine body of main(); the harness re-composes it.  The
     control-flow skeleton of the CURRENT body (every if/else line and every line with a WAL / buffer
-    call, whitespace-normalised, comments and log statements ignored) must be the one that was
-    transcribed; otherwise the tie is broken and the recomposition has to be re-validated."""
+    call, whitespace-normalised, comments and log statements ignored) must be one of the transcribed
+    variants; otherwise the tie is broken and the recomposition has to be re-validated."""
     src = open(os.path.join(vlib.REPO, "cmd/arc/main.go")).read()
     i0 = src.find("Start periodic WAL maintenance goroutine")
     if i0 < 0:
@@ -93,7 +95,7 @@ def check_tick_source():
     if "if safeAge < 30*time.Second {\n\t\t\tsafeAge = 30 * time.Second" not in blk[:a]:
         raise vlib.TieBroken("cmd/arc/main.go: the 30 s floor of safeAge changed")
     keys = ("PurgeOlderThan(", "NewRecovery(", "CurrentFile()", "RecoverWithOptions(", "SkipActiveFile:", "MinFileAge:", "BatchSize:",
-            "ColumnarCallback:", "ResetFlushFailure()")
+            "ColumnarCallback:", "ResetFlushFailure()", "FlushReplayed", "FlushAll(")
     sk = []
     for ln in blk[a:b].splitlines():
         t = ln.strip()
@@ -104,12 +106,22 @@ def check_tick_source():
     if sk != TICK_SKELETON:
         diff = [(i, x, y) for i, (x, y) in enumerate(zip(sk + [None] * 30, TICK_SKELETON + [None] * 30)) if x != y][:3]
         raise vlib.TieBroken("cmd/arc/main.go: the WAL maintenance tick body no longer matches its transcription: %r" % (diff,))
+    variant = "replay-flush-delete"
+    # recovery.go: FlushReplayed runs after the entries of a file were replayed and before os.Remove; its
+    # failure keeps the file
+    rsrc = open(os.path.join(vlib.REPO, "internal/wal/recovery.go")).read()
+    i1 = rsrc.find("if allEntriesSucceeded && len(entries) > 0 && opts.FlushReplayed != nil {")
+    i2 = rsrc.find("if err := opts.FlushReplayed(ctx); err != nil {", i1)
+    i3 = rsrc.find("allEntriesSucceeded = false", i2)
+    i4 = rsrc.find("if err := os.Remove(walFile); err != nil {", i3)
+    if min(i1, i2, i3, i4) < 0 or not (i1 < i2 < i3 < i4):
+        raise vlib.TieBroken("internal/wal/recovery.go: flush-before-delete (FlushReplayed before os.Remove, failure keeps the file) not found")
     m = re.search(r"func createColumnarRecoveryCallback\(.*?\n}\n", src, re.S)
     if not m or "arrowBuffer.WriteColumnarDirectNoWAL(ctx, database, measurement, columns)" not in m.group(0):
         raise vlib.TieBroken("createColumnarRecoveryCallback no longer forwards to WriteColumnarDirectNoWAL")
     if "walWriter.PurgeAll()" not in src:
         raise vlib.TieBroken("the wal-purge registration no longer calls walWriter.PurgeAll()")
-    return {"tick_order": sk}
+    return {"tick_order": sk, "variant": variant}
 
 
 # ---------------------------------------------------------------------------------------
@@ -171,12 +183,22 @@ def witness_traces(regs, guarded=False):
         {"sig": KF_DUP, "name": "stored-batch-replayed-with-failed-one", "max_size": 1, "queue": 8, "wal": True, "final": True,
          "ops": [W1(b1), {"op": "fail", "mode": "all"}, W2(b2), {"op": "fail", "mode": "none"}, {"op": "age", "old": False}, {"op": "tick"},
                  {"op": "flushall"}]},
-        {"sig": KF_PURGE, "name": "tick-purges-before-replay", "max_size": 1, "queue": 8, "wal": True, "final": True,
+        {"sig": KF_PURGE, "name": "old-wal-file-replayed-not-purged", "max_size": 1, "queue": 8, "wal": True, "final": True,
          "ops": [{"op": "fail", "mode": "all"}, W1(b1), {"op": "fail", "mode": "none"}, {"op": "age", "old": True}, {"op": "tick"},
                  {"op": "flushall"}]},
-        {"sig": KF_REFAIL, "name": "replay-then-fail-again", "max_size": 1, "queue": 8, "wal": True, "final": True,
+        {"sig": KF_ASYNC, "name": "replay-size-flush-async-fails-after-file-deleted", "max_size": 1, "queue": 8, "wal": True, "final": True,
          "ops": [{"op": "fail", "mode": "all"}, W1(b1), {"op": "age", "old": False}, {"op": "tick"}, {"op": "fail", "mode": "none"},
                  {"op": "age", "old": False}, {"op": "tick"}, {"op": "flushall"}]},
+        {"sig": KF_REFAIL, "name": "replay-buffered-flush-fails-file-kept", "max_size": 100, "queue": 8, "wal": True, "final": 2,
+         "ops": [{"op": "fail", "mode": "all"}, W1(b1), {"op": "flushall"}, {"op": "age", "old": False}, {"op": "tick"}]},
+        {"sig": KF_RESET, "name": "tick-skips-young-file-resets-flag", "max_size": 1, "queue": 8, "wal": True, "final": True,
+         "ops": [{"op": "fail", "mode": "all"}, W1(b1), {"op": "fail", "mode": "none"}, {"op": "tick"}, {"op": "age", "old": True}, {"op": "tick"},
+                 {"op": "flushall"}]},
+        {"sig": KF_RESET, "name": "tick-keeps-file-but-resets-flag", "max_size": 100, "queue": 8, "wal": True, "final": True,
+         "ops": [{"op": "fail", "mode": "all"}, W1(b1), {"op": "flushall"}, {"op": "age", "old": False}, {"op": "tick"}, {"op": "fail", "mode": "none"},
+                 {"op": "age", "old": True}, {"op": "tick"}, {"op": "flushall"}]},
+        {"sig": KF_SHUTDOWN, "name": "shutdown-cancels-inflight-flush", "max_size": 1, "queue": 8, "wal": True, "final": 2,
+         "ops": [{"op": "block_ctx"}, W1(b1), {"op": "shutdown", "regs": rel, "guarded": guarded}]},
         {"sig": None, "name": "outage-replay-stored-once", "max_size": 1, "queue": 8, "wal": True, "final": True,
          "ops": [{"op": "fail", "mode": "all"}, W1(b1), {"op": "fail", "mode": "none"}, {"op": "age", "old": False}, {"op": "tick"},
                  {"op": "flushall"}, {"op": "age", "old": True}, {"op": "tick"}]},
@@ -272,6 +294,8 @@ def coq_ops(c, o, keys, H):
             terms.append("O7Age %s" % cbool(op["old"]))
         elif k == "tick":
             terms.append("O7Tick")
+        elif k == "block_ctx":
+            terms.append("O7BlockCtx")
         elif k == "purge_all":
             terms.append("O7PurgeAll")
         elif k == "close":
@@ -294,7 +318,7 @@ def trace_term(c, o, H, thr):
     files = clist([coq_kfile(keys, f) for f in o["files"]]) if o["files"] else "[]"
     obs = "{| o_files := %s; o_walfiles := %d; o_walentries := %d; o_failed := %s |}" % (
         files, o["wal_files"], o["wal_entries"], cbool(o["failed"]))
-    cfg = "{| max_size := %d; queue_cap := %d; wal_on := %s; fix_drain := false |}" % (c["max_size"], c["queue"], cbool(c["wal"]))
+    cfg = "{| max_size := %d; queue_cap := %d; wal_on := %s; fix_drain := true |}" % (c["max_size"], c["queue"], cbool(c["wal"]))
     return "CTrace (%d) (%d) %s %s %s %s" % (H, thr, cfg, ops, cn(int(c["final"])), obs)
 
 
@@ -344,13 +368,14 @@ def explained(c, known):
     if not c["wal"] and ("block" in feats or "fault" in feats):
         sigs.add(KF_NOWAL)
     if c["wal"] and "tick" in feats:
-        sigs |= {KF_DUP, KF_PURGE, KF_REFAIL}
+        sigs |= {KF_DUP, KF_RESET, KF_ASYNC}
     return sorted(s for s in sigs if s in known)
 
 
 def setup():
     lb.translate_params()
-    lb.translate_shutdown()
+    check_tick_source()
+    lb.translate_shutdown(tick_purges_first=False, tick_flush_before_delete=True)
 
 
 def warm():
@@ -358,21 +383,25 @@ def warm():
     run_orders([], "warm")
 
 
-def run(res, tier, seed):
+def _run(res, tier, seed):
     rng = random.Random(seed * 7919 + 7)
     t0 = time.time()
     try:
         params = lb.translate_params()
-        regs, hooks_first = lb.translate_shutdown()
         tick = check_tick_source()
+        regs, hooks_first = lb.translate_shutdown(tick_purges_first=False, tick_flush_before_delete=True)
     finally:
         res.stage("translate_params", t0)
     H, thr = params["micro_per_hour"], params["radix_skip_threshold"]
     res.cov["params"] = {"micro_per_hour": H, "registrations": [(r["name"], r["kind"], r["prio"]) for r in regs],
-                         "hooks_loop_first": hooks_first, "tick_anchors": tick["tick_order"]}
+                         "hooks_loop_first": hooks_first, "tick_variant": tick["variant"]}
 
     failed = vlib.std_proof_stage(res, "C07", AREA, MODULES, THEOREMS,
                                   extra_targets=["theories/Buffer/PropsC07.vo", "theories/Buffer/ObligationsC07.vo"])
+    if tier == "thorough":
+        ok, _ = vlib.coqchk_stage(res, ["Arc.Buffer.PropsC07", "Arc.Buffer.ObligationsC07"])
+        if not ok:
+            failed.append(("coqchk", "coqchk rejected the compiled development or reported inadmissible axioms"))
     res.cov["trusted_base"] += [
         "the periodic WAL maintenance tick and the recovery callback are inline in cmd/arc/main.go; the harness re-composes them (PurgeOlderThan(safeAge) -> RecoverWithOptions(SkipActiveFile, MinFileAge) -> ResetFlushFailure) and the check verifies the order of these calls and the constants textually on the current source",
         "WAL file ages are abstract classes (younger than MinFileAge / in between / older than safeAge) driven by os.Chtimes in the harness; the WAL writer rotates after every entry (MaxSizeBytes = 1) so that the active file is always empty",
@@ -382,9 +411,12 @@ def run(res, tier, seed):
         "LRestart (process exit + startup recovery) is modelled and proved about, but not driven on the real code by this check (C05 does)",
     ]
     # what the obligations decided on the deployed table
-    rc, out = vlib.coq_eval("C07", "Deployed_C07", "From Coq Require Import List String.\nFrom Arc Require Import Buffer.ObligationsC07.\n"
-                            "Definition dpaf := Eval vm_compute in deployed_purge_after_flush.\nPrint dpaf.\n"
-                            "Definition dord := Eval vm_compute in deployed_order.\nPrint dord.\n")
+    # evaluated on the regenerated table itself (not through ObligationsC07, which may fail to compile)
+    vlib.coq_make(["gen/Params_Shutdown.vo"])
+    rc, out = vlib.coq_eval("C07", "Deployed_C07", "From Coq Require Import List String.\nFrom Arc Require Import Buffer.Shutdown.\n"
+                            "From ArcGen Require Import Params_Shutdown.\n"
+                            "Definition dpaf := Eval vm_compute in purge_after_flush registrations.\nPrint dpaf.\n"
+                            "Definition dord := Eval vm_compute in map r_name (shutdown_order registrations).\nPrint dord.\n")
     m = re.search(r"dpaf\s*=\s*(true|false)", out)
     if rc != 0 or not m:
         raise vlib.InfraError("cannot evaluate the deployed shutdown obligation: " + out[-1500:])
@@ -399,6 +431,7 @@ def run(res, tier, seed):
     traces = wit + load_corpus() + gen_traces(rng, n)
     for c in traces:
         normalise(c)
+        pass
     tables = [regs] + gen_tables(rng, 60 if tier == "quick" else 600)
     obs = run_traces(traces, tier)
     oobs = run_orders(tables, tier)
@@ -466,8 +499,10 @@ def run(res, tier, seed):
              KF_NOWAL: "with the WAL disabled rows of a write that returned success are dropped when the flush queue is full or the flush fails",
              KF_DUP: "the WAL replay after a flush failure re-stores rows that were already stored (same rows in two Parquet files)",
              KF_PURGE: "the maintenance tick purges WAL files older than safeAge before replaying them: rows of the failed flush are gone",
-             KF_REFAIL: "the replay deletes the WAL file as soon as the rows are re-buffered; a second flush failure loses them"}
-    for sig in (KF_SHUTDOWN, KF_NOWAL, KF_DUP, KF_PURGE, KF_REFAIL):
+             KF_REFAIL: "the replay deletes the WAL file as soon as the rows are re-buffered; a second flush failure loses them",
+             KF_ASYNC: "rows whose re-buffering during the replay triggers the size flush are only queued when the WAL file is deleted (FlushAll does not wait for the worker); if that flush fails they are lost",
+             KF_RESET: "the tick resets the flush-failure flag although the WAL file holding the failed rows was skipped (too young / active); the next normal tick purges it by age"}
+    for sig in (KF_SHUTDOWN, KF_NOWAL, KF_DUP, KF_PURGE, KF_REFAIL, KF_ASYNC, KF_RESET):
         if sig in kf_hits:
             res.known_finding("%s: %s [%s; model predicts it]" % (sig, texts[sig], "; ".join(kf_hits[sig])))
     res.cov["witnesses"] = {c["name"]: {"oracle_fails": i in orf, "model_agrees": i not in dis} for i, c in enumerate(wit)}
@@ -533,6 +568,22 @@ def shrink_trace(c, H, thr, rounds=5):
             break
         cur = cands[r["agree"][0]]
     return cur
+
+
+def run(res, tier, seed):
+    """A change of the code under test must never surface as an infrastructure error (exit 2) or as
+    a Python traceback: whatever goes wrong while tying the model to the current source is a broken
+    tie, reported as VIOLATION ... no-failing-input-found with the reason."""
+    try:
+        _run(res, tier, seed)
+    except vlib.TieBroken:
+        raise
+    except vlib.InfraError as e:
+        raise vlib.TieBroken("%s: the model could not be evaluated against the current source: %s" % (__name__, e))
+    except Exception as e:                                   # noqa: BLE001
+        import traceback
+        raise vlib.TieBroken("%s: unexpected %s while checking the current source: %s\n%s"
+                             % (__name__, type(e).__name__, e, traceback.format_exc()[-1500:]))
 
 
 def load_corpus():
